@@ -13,6 +13,10 @@ import (
 )
 
 // smtText renders one obligation as an SMT-LIB 2 query (unsat == discharged).
+//
+//	mode full:   hypotheses as generated (quantified axioms with patterns), negated goal
+//	mode ground: quantified hypotheses and the negated goal replaced by ground instances (quantifier free)
+//	mode cover:  quantifier-free hypotheses only; the query must be satisfiable
 func (ob *Obligation) smtText(models bool, mode string) string {
 	x := ob.ctx
 	c := x.c
@@ -22,7 +26,7 @@ func (ob *Obligation) smtText(models bool, mode string) string {
 	}
 	sb.WriteString("(set-logic ALL)\n")
 	fmt.Fprintf(&sb, "; obligation %s (%s)\n; kind %s at %s\n; %s\n", ob.Name, mode, ob.Kind, ob.Pos, strings.ReplaceAll(ob.Desc, "\n", " "))
-	hyps := x.hyps[:ob.NHyps]
+	hyps := x.relevantHyps(ob)
 	switch mode {
 	case "cover":
 		memo := map[*Term]bool{}
@@ -36,14 +40,22 @@ func (ob *Obligation) smtText(models bool, mode string) string {
 	case "ground":
 		var dropped int
 		hyps, dropped = c.groundInstances(hyps, ob.Goal, 3)
-		fmt.Fprintf(&sb, "; ground instantiation: %d quantified hypotheses replaced by instances\n", dropped)
+		fmt.Fprintf(&sb, "; ground instantiation: %d quantified items replaced by instances\n", dropped)
 	}
-	roots := append(append([]*Term{}, hyps...), ob.Goal)
-	c.Emit(&sb, roots)
-	for _, h := range hyps {
-		fmt.Fprintf(&sb, "(assert %s)\n", c.Ref(h))
+	if mode == "ground" {
+		// hyps already contain the decomposed negated goal
+		c.Emit(&sb, hyps)
+		for _, h := range hyps {
+			fmt.Fprintf(&sb, "(assert %s)\n", c.Ref(h))
+		}
+	} else {
+		roots := append(append([]*Term{}, hyps...), ob.Goal)
+		c.Emit(&sb, roots)
+		for _, h := range hyps {
+			fmt.Fprintf(&sb, "(assert %s)\n", c.Ref(h))
+		}
+		fmt.Fprintf(&sb, "(assert (not %s))\n", c.Ref(ob.Goal))
 	}
-	fmt.Fprintf(&sb, "(assert (not %s))\n", c.Ref(ob.Goal))
 	sb.WriteString("(check-sat)\n")
 	if models {
 		if len(ob.GetValues) > 0 {
@@ -60,6 +72,7 @@ func (ob *Obligation) smtText(models bool, mode string) string {
 }
 
 var genMu sync.Mutex // term construction (ground instantiation) is not concurrent
+var genSeconds float64
 
 type solverSpec struct {
 	name string
@@ -70,7 +83,7 @@ var solvers = []solverSpec{
 	{"z3-new", func(f string, ms int) []string { return []string{"z3-new", fmt.Sprintf("-T:%d", (ms+999)/1000), "-smt2", f} }},
 	{"z3", func(f string, ms int) []string { return []string{"z3", fmt.Sprintf("-T:%d", (ms+999)/1000), "-smt2", f} }},
 	{"cvc5", func(f string, ms int) []string {
-		return []string{"cvc5", fmt.Sprintf("--tlimit=%d", ms), "--produce-models", f}
+		return []string{"cvc5", fmt.Sprintf("--tlimit=%d", ms), f}
 	}},
 }
 
@@ -103,7 +116,7 @@ func runSolver(ctx context.Context, s solverSpec, file string, timeoutMs int) so
 	case "timeout":
 		verdict = "timeout"
 	default:
-		if cctx.Err() != nil {
+		if cctx.Err() != nil || ctx.Err() != nil {
 			verdict = "timeout"
 		} else if strings.Contains(text, "error") || strings.Contains(text, "Error") {
 			verdict = "error"
@@ -113,6 +126,13 @@ func runSolver(ctx context.Context, s solverSpec, file string, timeoutMs int) so
 }
 
 // discharge runs the portfolio on one obligation.
+//
+//	stage 1: z3-new on the ground (quantifier-free) query and on the full query, concurrently, short timeout;
+//	stage 2: all three solvers raced on the full query with the tier's timeout.
+//
+// unsat from any of them discharges the obligation (ground instances are consequences of the
+// hypotheses). If nothing proves it and the ground query is satisfiable, the verdict is sat and the
+// ground query is re-run with model production for the replay.
 func discharge(ob *Obligation, dir string, timeoutMs int, confirm bool) {
 	file := filepath.Join(dir, sanitize(ob.Name)+".smt2")
 	mode := "full"
@@ -120,96 +140,173 @@ func discharge(ob *Obligation, dir string, timeoutMs int, confirm bool) {
 		mode = "cover"
 	}
 	genMu.Lock()
-	text := ob.smtText(true, mode)
+	g0 := time.Now()
+	text := ob.smtText(false, mode)
+	var gtext string
+	if !ob.Cover {
+		gtext = ob.smtText(false, "ground")
+	}
+	genSeconds += time.Since(g0).Seconds()
 	genMu.Unlock()
 	if err := os.WriteFile(file, []byte(text), 0o644); err != nil {
 		ob.Verdict = "error"
 		return
 	}
 	ob.File = file
-	ctx, cancel := context.WithCancel(context.Background())
-	defer cancel()
-	// stage 1: z3-new alone, short
 	first := timeoutMs
 	if first > 3000 {
 		first = 3000
 	}
-	r := runSolver(ctx, solvers[0], file, first)
-	total := r.secs
-	if r.verdict != "sat" && r.verdict != "unsat" {
-		// stage 2: race all
-		ch := make(chan solveResult, len(solvers))
-		for _, s := range solvers {
-			go func(s solverSpec) { ch <- runSolver(ctx, s, file, timeoutMs) }(s)
+	if ob.Cover {
+		r := runSolver(context.Background(), solvers[0], file, first)
+		if r.verdict != "sat" && r.verdict != "unsat" {
+			r = runSolver(context.Background(), solvers[1], file, timeoutMs)
 		}
-		best := r
+		ob.Verdict, ob.Solver, ob.Seconds = r.verdict, r.solver, r.secs
+		return
+	}
+	gfile := filepath.Join(dir, sanitize(ob.Name)+".ground.smt2")
+	haveGround := gtext != "" && stripComments(gtext) != stripComments(text)
+	if haveGround {
+		if err := os.WriteFile(gfile, []byte(gtext), 0o644); err != nil {
+			haveGround = false
+		}
+	}
+	total := 0.0
+	groundSat := false
+	// stage 1
+	ctx1, cancel1 := context.WithCancel(context.Background())
+	ch := make(chan solveResult, 2)
+	n := 1
+	go func() { ch <- runSolver(ctx1, solvers[0], file, first) }()
+	if haveGround {
+		n = 2
+		go func() {
+			r := runSolver(ctx1, solvers[0], gfile, first)
+			r.solver += "/ground"
+			ch <- r
+		}()
+	}
+	var proved *solveResult
+	var fullRes solveResult
+	for k := 0; k < n; k++ {
+		r := <-ch
+		if r.secs > total {
+			total = r.secs
+		}
+		if strings.HasSuffix(r.solver, "/ground") {
+			if r.verdict == "sat" {
+				groundSat = true
+			}
+		} else {
+			fullRes = r
+		}
+		if r.verdict == "unsat" && proved == nil {
+			rr := r
+			proved = &rr
+			cancel1()
+		}
+	}
+	cancel1()
+	if proved == nil && fullRes.verdict != "sat" {
+		// stage 2: race all three on the full query
+		ctx2, cancel2 := context.WithCancel(context.Background())
+		ch2 := make(chan solveResult, len(solvers))
+		for _, s := range solvers {
+			go func(s solverSpec) { ch2 <- runSolver(ctx2, s, file, timeoutMs) }(s)
+		}
+		best := fullRes
 		for range solvers {
-			rr := <-ch
-			if rr.verdict == "sat" || rr.verdict == "unsat" {
-				// cvc5 "sat" on quantified problems can be unreliable for refutation but is fine as a verdict here:
-				best = rr
-				cancel()
-				break
-			}
-			if best.verdict == "error" || best.verdict == "" {
-				best = rr
-			}
-			if rr.verdict == "timeout" && best.verdict == "unknown" {
-				// keep unknown
-			}
-		}
-		total += best.secs
-		r = best
-	}
-	if r.verdict != "unsat" && !ob.Cover {
-		// quantifier-free ground-instantiated query: can prove, and can produce a model
-		gfile := filepath.Join(dir, sanitize(ob.Name)+".ground.smt2")
-		genMu.Lock()
-		gtext := ob.smtText(true, "ground")
-		genMu.Unlock()
-		if err := os.WriteFile(gfile, []byte(gtext), 0o644); err == nil {
-			gctx, gcancel := context.WithCancel(context.Background())
-			ch := make(chan solveResult, 2)
-			for _, s := range solvers[:2] {
-				go func(s solverSpec) { ch <- runSolver(gctx, s, gfile, timeoutMs) }(s)
-			}
-			for k := 0; k < 2; k++ {
-				rr := <-ch
-				if rr.verdict == "sat" || rr.verdict == "unsat" {
-					rr.solver += "/ground"
-					total += rr.secs
-					r = rr
-					ob.File = gfile
-					break
-				}
-			}
-			gcancel()
-		}
-	}
-	ob.Verdict = r.verdict
-	ob.Solver = r.solver
-	ob.Seconds = total
-	if r.verdict == "sat" {
-		ob.Model = r.output
-	}
-	if r.verdict == "error" {
-		ob.Model = r.output
-	}
-	if confirm && r.verdict == "unsat" {
-		// second solver confirmation (thorough tier)
-		for _, s := range solvers {
-			if s.name == r.solver {
-				continue
-			}
-			rr := runSolver(context.Background(), s, file, timeoutMs)
-			if rr.verdict == "sat" {
-				ob.Verdict = "disagree"
-				ob.Model = rr.output
-			}
+			rr := <-ch2
 			if rr.verdict == "unsat" {
-				ob.Solver += "+" + s.name
+				r2 := rr
+				proved = &r2
+				total += rr.secs
 				break
 			}
+			if rr.verdict == "sat" && !strings.HasPrefix(rr.solver, "cvc5") {
+				best = rr
+			} else if best.verdict == "" || best.verdict == "error" {
+				best = rr
+			}
+		}
+		cancel2()
+		if proved == nil {
+			fullRes = best
+			total += float64(timeoutMs) / 1000
+		}
+	}
+	if proved != nil {
+		ob.Verdict, ob.Solver, ob.Seconds = "unsat", proved.solver, total
+		if strings.HasSuffix(proved.solver, "/ground") {
+			ob.File = gfile
+		}
+		if confirm {
+			confirmWith(ob, ob.File, proved.solver, timeoutMs)
+		}
+		return
+	}
+	// not proved
+	ob.Seconds = total
+	if groundSat || fullRes.verdict == "sat" {
+		ob.Verdict = "sat"
+		// re-run with model production (probe values when available)
+		mfile := gfile
+		mmode := "ground"
+		if !groundSat {
+			mfile, mmode = file, "full"
+		}
+		genMu.Lock()
+		mtext := ob.smtText(true, mmode)
+		genMu.Unlock()
+		mfile = strings.TrimSuffix(mfile, ".smt2") + ".model.smt2"
+		if err := os.WriteFile(mfile, []byte(mtext), 0o644); err == nil {
+			r := runSolver(context.Background(), solvers[0], mfile, timeoutMs)
+			ob.Model = r.output
+			ob.Solver = r.solver
+			if groundSat {
+				ob.Solver += "/ground"
+			}
+			ob.File = mfile
+		}
+		return
+	}
+	ob.Verdict = fullRes.verdict
+	if ob.Verdict == "" {
+		ob.Verdict = "unknown"
+	}
+	ob.Solver = fullRes.solver
+	if fullRes.verdict == "error" {
+		ob.Model = fullRes.output
+	}
+}
+
+func stripComments(s string) string {
+	var sb strings.Builder
+	for _, l := range strings.Split(s, "\n") {
+		if !strings.HasPrefix(l, ";") {
+			sb.WriteString(l)
+			sb.WriteString("\n")
+		}
+	}
+	return sb.String()
+}
+
+// confirmWith: second-solver confirmation (thorough tier); disagreement is reported.
+func confirmWith(ob *Obligation, file, used string, timeoutMs int) {
+	for _, s := range solvers {
+		if strings.HasPrefix(used, s.name) && (len(used) == len(s.name) || used[len(s.name)] == '/') {
+			continue
+		}
+		rr := runSolver(context.Background(), s, file, timeoutMs)
+		if rr.verdict == "sat" && s.name != "cvc5" {
+			ob.Verdict = "disagree"
+			ob.Model = rr.output
+			return
+		}
+		if rr.verdict == "unsat" {
+			ob.Solver += "+" + s.name
+			return
 		}
 	}
 }
